@@ -62,8 +62,17 @@ def main(argv=None):
             rc = 2
     except Exception:
         traceback.print_exc()
-        print(f"MACHINERY-FAILURE {pid}: unexpected exception in the check itself", file=sys.stderr, flush=True)
-        rc = 2
+        if ctx.violations:
+            print(f"[{pid}] the check could not be completed after {len(ctx.violations)} violation(s) (unexpected exception, see above)", file=sys.stderr, flush=True)
+            try:
+                ctx.write_evidence()
+            except Exception:
+                pass
+            print(f"[{pid}] tier={a.tier} seed={seed} violations={len(ctx.violations)} (incomplete run)", flush=True)
+            rc = 1
+        else:
+            print(f"MACHINERY-FAILURE {pid}: unexpected exception in the check itself", file=sys.stderr, flush=True)
+            rc = 2
     finally:
         if not a.keep:
             ctx.cleanup()
